@@ -88,7 +88,9 @@ def _collapse_preconditions(
             ).format(func.__qualname__)
         )
 
-    return base_preconditions + preconditions
+    # The groups of the bases are copied so that the collapsed preconditions share no list with the checkers of
+    # the bases. Otherwise, a precondition added to this function later on would also be added to the base.
+    return [group[:] for group in base_preconditions] + preconditions
 
 
 def _collapse_snapshots(
